@@ -344,9 +344,15 @@ impl Default for SysGen {
 }
 
 fn gen_cmds(rng: &mut Rng, g: &SysGen, n_actors: usize, max: u64) -> Vec<Cmd> {
-    let k = rng.below(max + 1);
+    // rarely a long batch (library code that sorts or chunks a handler's output only misbehaves
+    // beyond a certain length); its sends go to actors that do not exist, so nobody answers
+    let long = rng.chance(1, 60);
+    let k = if long { rng.range(21, 48) } else { rng.below(max + 1) };
     (0..k)
         .map(|_| {
+            if long && rng.chance(2, 3) {
+                return Cmd::Send { dst: Dst::Abs(n_actors as u8 + rng.below(2) as u8), tag: rng.below(g.tags as u64) as u8, who: Who::Nobody };
+            }
             let mut w = vec![6u64, 0, 0, 0, 0, 1];
             if g.use_timers {
                 w[1] = 2;
